@@ -112,6 +112,8 @@ func (e *Env) resolveType(t *TypeExpr) types.Type {
 		n := new(big.Int)
 		n.SetString(t.N, 0)
 		return types.NewArray(e.resolveType(t.Elem), n.Int64())
+	case "map":
+		return types.NewMap(e.resolveType(t.Key), e.resolveType(t.Elem))
 	}
 	if t.Pkg == "" {
 		if t.Name == "byte" {
@@ -258,6 +260,10 @@ func (e *Env) ident(name string) *SVal {
 	if e.f != nil {
 		if v := e.f.resolveLocal(name, e.at, e.atIdx, e.phiSub); v != nil {
 			return v
+		}
+		// an address-taken local (captured by a closure, named result with defers, &x): its current value
+		if p := e.f.resolveAllocLocal(name, e.at); p != nil {
+			return e.g.load(e.cur, p, p.T.Underlying().(*types.Pointer).Elem())
 		}
 	}
 	if e.pkg != nil {
@@ -827,8 +833,15 @@ func (e *Env) quant(x *EQuant) *SVal {
 	if (x.Forall && tp > 0) || (!x.Forall && tp < 0) {
 		sub := e.child()
 		for i, qv := range x.Vars {
-			n := g.fresh("sk."+qv.Name, g.W.scalarSort(ts[i]))
-			v := scalar(ts[i], kindOf(ts[i]), n)
+			var v *SVal
+			if pn := packedKeyLen(ts[i]); pn > 0 {
+				// small byte arrays are quantified in packed form (one bit-vector)
+				v = g.packedVal(ts[i], g.fresh("sk."+qv.Name, Sort(fmt.Sprintf("(_ BitVec %d)", 8*pn))))
+				v.Term = g.define("sk."+qv.Name+".arr", g.W.scalarSort(ts[i]), v.Term)
+			} else {
+				n := g.fresh("sk."+qv.Name, g.W.scalarSort(ts[i]))
+				v = scalar(ts[i], kindOf(ts[i]), n)
+			}
 			sub.vars[qv.Name] = v
 			g.addNamed(v)
 		}
@@ -894,7 +907,20 @@ func (e *Env) quant(x *EQuant) *SVal {
 	var binders []string
 	var qh *QHyp
 	negHyp := !x.Forall && tp > 0 && e.mode == 1 && !e.noInst
-	if (x.Forall && tp < 0 && e.mode == 1 && !e.noInst) || negHyp {
+	// a quantifier with explicit triggers is left to the back ends' e-matching (full stage): no ground
+	// instances are generated for it here
+	userTrig := false
+	for _, tr := range x.Trig {
+		if c, ok := tr.(*ECall); ok {
+			if id, ok := c.Fun.(*EIdent); ok && id.Name == "hint" {
+				continue
+			}
+		}
+		if id, ok := tr.(*EIdent); ok && id.Name == "solver" {
+			userTrig = true // {solver}: leave this quantifier to the back ends' e-matching only
+		}
+	}
+	if ((x.Forall && tp < 0 && e.mode == 1 && !e.noInst) || negHyp) && !userTrig {
 		capt := e.child()
 		capt.cur = g.clone(e.cur)
 		if e.old != nil {
@@ -911,8 +937,13 @@ func (e *Env) quant(x *EQuant) *SVal {
 	}
 	for i, qv := range x.Vars {
 		n := g.nm("q." + qv.Name)
-		binders = append(binders, fmt.Sprintf("(%s %s)", n, g.W.scalarSort(ts[i])))
-		sub.vars[qv.Name] = scalar(ts[i], kindOf(ts[i]), n)
+		if pn := packedKeyLen(ts[i]); pn > 0 {
+			binders = append(binders, fmt.Sprintf("(%s (_ BitVec %d))", n, 8*pn))
+			sub.vars[qv.Name] = g.packedVal(ts[i], n)
+		} else {
+			binders = append(binders, fmt.Sprintf("(%s %s)", n, g.W.scalarSort(ts[i])))
+			sub.vars[qv.Name] = scalar(ts[i], kindOf(ts[i]), n)
+		}
 		if qh != nil {
 			qh.syms = append(qh.syms, n)
 		}
@@ -930,6 +961,24 @@ func (e *Env) quant(x *EQuant) *SVal {
 			if id, ok := c.Fun.(*EIdent); ok && id.Name == "hint" {
 				continue
 			}
+		}
+		// has(m, k) as a trigger stands for the domain lookup term itself (a pattern cannot contain
+		// connectives)
+		if c, ok := tr.(*ECall); ok {
+			if id, ok := c.Fun.(*EIdent); ok && id.Name == "has" && len(c.Args) == 2 {
+				m := sub.eval(c.Args[0])
+				if mt, ok := m.T.Underlying().(*types.Map); ok {
+					k := sub.eval(c.Args[1])
+					fd, _, _ := mapFams(mt)
+					ks := g.mapKeySort(mt)
+					hd := g.heapGet(sub.cur, fd, arrSort(SBV64, arrSort(ks, SBool)))
+					pats = append(pats, sSel(sSel(hd, m.Term), g.mapKey(mt, k)))
+					continue
+				}
+			}
+		}
+		if id, ok := tr.(*EIdent); ok && id.Name == "solver" {
+			continue
 		}
 		v := sub.eval(tr)
 		pats = append(pats, v.Term)
@@ -1108,6 +1157,13 @@ func (e *Env) call(x *ECall) *SVal {
 		case "sliceoff":
 			a := e.eval(x.Args[0])
 			return mkInt(a.Sub[1].Term)
+		case "clocknow": // the ghost wall clock of the current state
+			cs, cn := g.clockOf(e.cur)
+			tt := g.P.timeType()
+			if tt == nil {
+				e.fail("clocknow: package time is not loaded")
+			}
+			return &SVal{T: tt, K: KTime, Sub: []*SVal{scalar(tInt64, KInt, cs), scalar(tInt64, KInt, cn)}}
 		case "bytesof": // bytesof(s): the (array, offset) view of slice contents as an SMT array value
 			a := e.eval(x.Args[0])
 			et := a.T.Underlying().(*types.Slice).Elem()
@@ -1289,13 +1345,16 @@ func (e *Env) callPure(pf *PureFn, args []Expr) *SVal {
 	if pf.Uninterp {
 		var fl []string
 		var sorts []string
-		for _, v := range argVals {
+		for i, v := range argVals {
 			for _, t := range flatten(v) {
 				fl = append(fl, t)
 			}
-			for _, l := range g.W.leaves(v.T) {
+			for _, l := range g.W.leaves(penv.resolveType(pf.Params[i].Type)) {
 				sorts = append(sorts, string(l.Sort))
 			}
+		}
+		if len(fl) != len(sorts) {
+			e.fail("uninterpreted function %s: argument shapes do not match its parameter types", pf.Name)
 		}
 		name := sym("uf_" + pf.Name)
 		g.declareUF(name, "("+strings.Join(sorts, " ")+") "+string(g.W.scalarSort(rt)))
@@ -1524,6 +1583,29 @@ func (e *Env) evalMod(x Expr) []*modItem {
 			return []*modItem{{kind: "star", text: txt}}
 		}
 	case *ECall:
+		if id, ok := x.Fun.(*EIdent); ok && id.Name == "pointee" && len(x.Args) == 1 {
+			// pointee(v): the variable an interface value points to, where the dynamic type is a known
+			// pointer type at this call (json.Decode(&x), ...)
+			v := e.eval(x.Args[0])
+			if v.K == KPtr {
+				return g.locItems(v, v.T.Underlying().(*types.Pointer).Elem(), txt)
+			}
+			if v.K == KIface {
+				tag := v.Sub[0].Term
+				for id, tt := range g.W.tagTypes {
+					if tag == bvLit(big.NewInt(int64(id+1)), 32) {
+						if pt, ok := tt.Underlying().(*types.Pointer); ok {
+							p := &SVal{T: tt, K: KPtr, Term: v.Sub[1].Term}
+							if !isAggregate(pt.Elem()) {
+								p.Prov = &Prov{Kind: 1, Fam: "C|" + typeKey(pt.Elem()), Idx: v.Sub[1].Term}
+							}
+							return g.locItems(p, pt.Elem(), txt)
+						}
+					}
+				}
+			}
+			return []*modItem{{kind: "star", text: txt}}
+		}
 		if id, ok := x.Fun.(*EIdent); ok && id.Name == "atomicval" {
 			p := e.evalLoc(x.Args[0])
 			pt := p.T.Underlying().(*types.Pointer).Elem()
@@ -1676,6 +1758,32 @@ func (g *Gen) assumeLocInv(st *State, reach string, it *modItem) {
 }
 
 // resolveLocal maps a source-level local variable name to its SSA value at block 'at'.
+// resolveAllocLocal: the cell of an address-taken local variable named name (unique by name in the
+// function, allocated in a block dominating at).
+func (f *Frame) resolveAllocLocal(name string, at *ssa.BasicBlock) *SVal {
+	if f.fn == nil || at == nil {
+		return nil
+	}
+	var found *ssa.Alloc
+	for _, b := range f.fn.Blocks {
+		for _, ins := range b.Instrs {
+			if a, ok := ins.(*ssa.Alloc); ok && a.Comment == name && (b == at || b.Dominates(at)) {
+				if found != nil {
+					return nil // ambiguous (shadowing)
+				}
+				found = a
+			}
+		}
+	}
+	if found == nil {
+		return nil
+	}
+	if v, ok := f.vals[found]; ok {
+		return v
+	}
+	return nil
+}
+
 func (f *Frame) resolveLocal(name string, at *ssa.BasicBlock, atIdx int, phiSub map[*ssa.Phi]*SVal) *SVal {
 	if f.fn == nil {
 		return nil
